@@ -230,9 +230,10 @@ def judge(res, cases, results, src, stats_acc):
         sig_case = dict(c, alt={"site": "none"}) if o.get("unapplied") else c
         res.violation(
             attflow.signature(v["clause"], sig_case),
-            "%s violated: %s device%s, alteration %s -> onboard=%s attestation=%s verify=%s (%s); "
-            "verify after load;save=%s" % (
+            "%s violated: %s device%s, field contents '%s' (UD value %s), alteration %s -> onboard=%s "
+            "attestation=%s verify=%s (%s); verify after load;save=%s" % (
                 v["clause"], c["plat"], " (legacy signer)" if c["framing"] == "legacy" else "",
+                c.get("content", "random"), c["ud"],
                 json.dumps(c["alt"], sort_keys=True), o["g_onboard"], o["g_attest"], o["verify"],
                 json.dumps(d["exc"], sort_keys=True)[:300], o["verify2"]),
             {"case": c, "outcome": {k: o[k] for k in ("g_onboard", "g_attest", "gather", "verify", "verify2",
@@ -315,7 +316,15 @@ def run(ctx):
     # 2. the cases: every model behaviour concretised, random shapes over the concrete domains
     #    (binding B), byte-position sweeps of the alteration
     chosen, n_classes = select(behaviours, ctx.rng, SUBSET)
-    cases = [attflow.concretise(behaviours[i], ctx.rng) for i in chosen]
+    profiles = attflow.PROFILES
+    cases = []
+    for n, i in enumerate(chosen):
+        b = behaviours[i]
+        # every genuine run of the model gets a boundary-looking content profile in turn (every second
+        # one with the public keys hash ground to match); altered runs draw theirs from the seed
+        prof = profiles[1 + n % (len(profiles) - 1)] if b["alt"]["site"] == "none" else None
+        cases.append(attflow.concretise(b, ctx.rng, profile=prof,
+                                        grind=(b["alt"]["site"] == "none" and n % 2 == 0)))
     for c in cases[:3]:
         c["keep_stdout"] = True
     for _rep in range(ctx.pick(0, 2)):            # thorough: two more concretisations of every behaviour
@@ -325,11 +334,14 @@ def run(ctx):
     scases = []
     for _dev in range(ctx.pick(1, 3)):            # thorough: every byte position, three devices
         scases += attflow.sweep_cases(ctx.rng, stride=ctx.pick(29, 1))
-    everything = cases + rcases + scases
+    bcases = attflow.content_cases(ctx.rng)
+    for _rep in range(ctx.pick(0, 9)):
+        bcases += attflow.content_cases(ctx.rng)
+    everything = cases + rcases + scases + bcases
     # 3. the real commands, end to end, on real files
     allres = run_cases(ctx, everything)
     results = allres[:len(cases)]
-    sresults = allres[len(cases) + len(rcases):]
+    sresults = allres[len(cases) + len(rcases):len(cases) + len(rcases) + len(scases)]
     res.coverage["behaviours_replayed"] = len(set(chosen))
     res.coverage["concretisations_per_behaviour"] = ctx.pick(1, 3)
     res.coverage["alteration_classes_in_model"] = n_classes
@@ -358,6 +370,8 @@ def run(ctx):
         outcomes[key] = outcomes.get(key, 0) + 1
     classes_hit = {(c["plat"], c["framing"], c["alt"]["site"], c["alt"].get("field"), c["alt"].get("page"),
                     c["alt"].get("how")) for c in everything}
+    res.coverage["boundary_content_genuine_devices"] = len(bcases)
+    res.coverage["content_profiles"] = list(attflow.PROFILES)
     res.coverage["random_cases"] = len(rcases)
     res.coverage["random_qeauth_sizes"] = len({c["qeauth"] for c in rcases if c["plat"] == "sgx"})
     res.coverage["sweep_positions"] = len(scases)
